@@ -102,10 +102,20 @@ func init() {
 		},
 		"Atom": func(fr *frame, a []value) value {
 			r := fr.i.run
+			if r.concrete != nil {
+				// a model value "=<text>" says the atom equals that concrete string (e.g. "" or an option)
+				name := r.nondetName(rtStr(a[0]))
+				if v, ok := r.concrete[name]; ok && strings.HasPrefix(v, "=") {
+					r.nondets = append(r.nondets, &NondetInfo{Name: name, Sort: "Atom"})
+					return v[1:]
+				}
+				r.nondetUnname(rtStr(a[0]))
+			}
 			t := r.newNondet(rtStr(a[0]), SInt, big.NewInt(0), nil)
 			if t.isCon {
 				return fmt.Sprintf("atom%s", t.ival)
 			}
+			r.nondets[len(r.nondets)-1].atom = true
 			return symStr{t}
 		},
 		"Bytes": func(fr *frame, a []value) value {
